@@ -412,6 +412,30 @@ impl BoundsAnalyzer {
         }
     }
 
+    /// Forgets the part of an inferred range that the domain cannot carry. A Boolean
+    /// keeps its type in `apply_to_domain` and an integer range without an integral
+    /// point keeps its declared range, so for those variables the emitted model only
+    /// enforces the type's own range. Rewrites that consult the analyzer afterwards
+    /// must not rely on anything tighter, otherwise they drop the very rows that
+    /// imply the tighter range.
+    pub(crate) fn keep_enforced_integral_bounds(
+        &mut self,
+        domain: &IndexMap<String, DomainVariable>,
+    ) {
+        for (name, variable) in domain {
+            if matches!(
+                variable.get_type(),
+                VariableType::Boolean | VariableType::IntegerRange(_, _)
+            ) && self.variable_bounds.contains_key(name)
+            {
+                self.variable_bounds.insert(
+                    name.clone(),
+                    Bounds::from_variable_type(variable.get_type()),
+                );
+            }
+        }
+    }
+
     fn propagate_affine_constraints(&mut self, constraints: &[Constraint], max_steps: usize) {
         let forms = constraints
             .iter()
